@@ -134,6 +134,24 @@ func runJobs(c *vx.Ctx, jobs []vx.Job, st *exploreStats, props []string, each fu
 		}
 		end := min(i+batch, len(jobs))
 		rs := c.Pool.Map(jobs[i:end])
+		// Determinism: a sample of the explored histories is executed twice and must give the same canonical state.
+		var dup []vx.Job
+		var dupIdx []int
+		for k := range rs {
+			if (i+k+int(c.Seed))%41 == 7 && rs[k].Crash == "" && rs[k].HarnessErr == "" {
+				dup = append(dup, jobs[i+k])
+				dupIdx = append(dupIdx, k)
+			}
+		}
+		if len(dup) > 0 {
+			drs := c.Pool.Map(dup)
+			for n, dr := range drs {
+				c.AddCounter("determinism_replays", 1)
+				if dr.Key != rs[dupIdx[n]].Key || dr.Outcome != rs[dupIdx[n]].Outcome {
+					c.HarnessError(fmt.Sprintf("nondeterministic execution: %v %v gave two different final states", dup[n].Hist, dup[n].Args))
+				}
+			}
+		}
 		for k, r := range rs {
 			j := jobs[i+k]
 			c.Absorb(j, r, props...)
